@@ -3,6 +3,7 @@ package goverter
 import (
 	"os"
 	"path/filepath"
+	"sort"
 
 	"github.com/jmattheis/goverter/comments"
 	"github.com/jmattheis/goverter/config"
@@ -77,7 +78,13 @@ func generateConvertersRaw(c *GenerateConfig) (map[string][]byte, error) {
 }
 
 func writeFiles(files map[string][]byte) error {
-	for path, content := range files {
+	paths := make([]string, 0, len(files))
+	for path := range files {
+		paths = append(paths, path)
+	}
+	sort.Strings(paths)
+	for _, path := range paths {
+		content := files[path]
 		if err := os.MkdirAll(filepath.Dir(path), 0o755); err != nil {
 			return err
 		}
